@@ -61,6 +61,16 @@ CHECKS = {
                 text="TLC enumerates format x colours x -o x debug x -R word (incl. near misses of CheckDefine) x file/--cfile/--filename for each file class; every combination is "
                      "executed through the real CLI; decoded verdict and diagnostics must equal those under default options (minus the #define-value codes for -R CheckDefine).",
                 note="the model side is near-tautological (it is the statement); the weight is on the exhaustive replay"),
+    "C01": dict(ref="§4.1", tech="TLC exploration of Norm.tla (exhaustive over body structures + simulation of the full conforming grammar; IndentIsDepth, DepthZeroAtTop, WidthOK) + replay of every derivation into the real pipeline and CLI",
+                text="Norm.tla generates Norm-conforming .c and .h translation units line by line together with the scope chain the engine must keep; TLC explores every body structure "
+                     "of a small bound exhaustively and the full grammar in simulation, checking that the tabs written equal the engine's indentation, widths stay <= 80 and counters "
+                     "within limits. Every derivation is concretised and run: verdict OK, no Error-level diagnostic, no fatal error; a sample through the real command line.",
+                note="the conforming grammar is my reading of the Norm (DESIGN 4.1); simulation is seeded; expression table of Expr.tla swept exhaustively in the thorough tier"),
+    "C07": dict(ref="§4.7", tech="TLC exploration of Norm.tla (statement kind + scope chain per line; DepthZeroAtTop) + statement events observed at Context.pop_tokens compared with the derivation",
+                text="Each derivation of Norm.tla carries, per line, the statement the engine must report. The events observed at Context.pop_tokens for the concretised program must "
+                     "tile the token list, each consume at least one token, be exactly as many as the derivation has lines, start in column 1, end with NEWLINE, and the scope must be "
+                     "back at file level after each function; unrecognisable fragments inserted at statement boundaries must end in a fatal diagnostic.",
+                note="observation by wrapping Context.pop_tokens (harness-side); rule-kind equality is a soft check"),
 }
 
 NOT_YET = {
